@@ -189,7 +189,7 @@ pub fn run_one(scn: Scenario, tape: Tape, sched: Option<Vec<u32>>, seed: u64, ex
     let mut harness_error = None;
     if r.is_err() {
         let (msg, loc) = PANIC_INFO.with(|p| p.borrow_mut().take()).unwrap_or_default();
-        let in_client = loc.contains("/repo/") || loc.contains("minimq/src") || loc.starts_with("src/") && !loc.contains("sim");
+        let in_client = loc.contains("/repo/") || loc.contains("minimq/src");
         let in_dep = loc.contains("heapless") || loc.contains("embassy") || loc.contains("serde") || loc.contains("/rustc/") || loc.contains("library/core") || loc.contains("library/alloc");
         if msg.contains("WATCHDOG") {
             let op = w.op_label;
